@@ -108,6 +108,7 @@ type concResult struct {
 	Races      []string       `json:"races"`
 	Deadlocks  int            `json:"deadlocks"`
 	DeadlockEx []string       `json:"deadlockEx"`
+	Stuck      []string       `json:"stuck"`
 	HeldAtCb   []string       `json:"heldAtCb"`
 	Fatal      []string       `json:"fatal"`
 	ForeignG   int            `json:"foreignG"`
@@ -349,6 +350,9 @@ func runConcOn(prop, tier string, sc *core.Scratch, ev *core.Evidence, rep *core
 				if r.Deadlocks > 0 {
 					witness("deadlock", map[string]any{"schedules": r.Deadlocks, "examples": r.DeadlockEx})
 				}
+				if len(r.Stuck) > 0 {
+					witness("an operation never returns: blocked on something other than the mock's locks (reproduced on a fresh mock)", r.Stuck)
+				}
 				if len(r.HeldAtCb) > 0 {
 					witness("lock held while the configured function runs", r.HeldAtCb)
 				}
@@ -392,6 +396,10 @@ func runConcOn(prop, tier string, sc *core.Scratch, ev *core.Evidence, rep *core
 		}
 		if raceRes != nil {
 			ev.Set("race_build", raceRes.Summary)
+			if len(raceRes.Hung) > 0 {
+				ev.Set("race_build_hung", raceRes.Hung)
+				rep.DriftNote(fmt.Sprintf("race build: free-running goroutines never finished in %d jobs (e.g. %s): a hang of generated code, judged by the check of C06", len(raceRes.Hung), raceRes.Hung[0]))
+			}
 			for _, r := range raceRes.Reports {
 				rep.Violation(prop, map[string]any{"kind": "race detector report in generated code", "report": r})
 				violations++
